@@ -293,6 +293,7 @@ func main() {
 			h.Fn, rep.Paths, rep.ByStatus, rep.Asserts, rep.Syntactic, rep.SolverUnsat, rep.Queries, rep.Sat, rep.Unsat, rep.Unknown,
 			rep.SolverTime.Seconds(), rep.Wall.Seconds(), rep.Exhausted)
 		if *verbose {
+			fmt.Printf("   FP slice cache: hits=%d misses=%d\n", sx.SliceStats.Hits, sx.SliceStats.Misses)
 			type kv struct {
 				k string
 				v int
